@@ -903,8 +903,9 @@ func (fc *fnCtx) callWrites(st *State, fr *frame, call *ssa.Call, inLoop func(ss
 	spec := fc.lookupSpec(call)
 	if spec == nil {
 		if callee := c.StaticCallee(); callee != nil && fc.e.inRepo(callee) && len(originOf(callee).Blocks) > 0 {
-			// inlined callee: scan its body conservatively
-			fc.scanWrites(originOf(callee), whole, 0)
+			// inlined callee: scan its body; a store through one of its parameters is a store through the
+			// corresponding argument of this call (precise when that argument is defined outside the loop)
+			fc.scanWritesArgs(st, originOf(callee), c.Args, inLoop, whole, precise, 0)
 		}
 		return
 	}
@@ -1150,6 +1151,154 @@ func originOf(f *ssa.Function) *ssa.Function {
 	return f
 }
 
+// scanWritesArgs: like scanWrites, but stores whose target is reached through a parameter of the callee are
+// attributed to the caller's argument.
+func (fc *fnCtx) scanWritesArgs(st *State, fn *ssa.Function, args []ssa.Value, inLoop func(ssa.Value) bool, whole map[string]bool, precise func(region, obj string), depth int) {
+	if depth > 4 || len(args) != len(fn.Params) {
+		fc.scanWrites(fn, whole, depth)
+		return
+	}
+	argOf := map[ssa.Value]ssa.Value{}
+	for i, p := range fn.Params {
+		argOf[p] = args[i]
+	}
+	outer := func(v ssa.Value) (ssa.Value, bool) {
+		a, ok := argOf[v]
+		if !ok || inLoop(a) {
+			return nil, false
+		}
+		if _, known := fc.tryVal(st, a); !known {
+			return nil, false
+		}
+		return a, true
+	}
+	for _, b := range fn.Blocks {
+		for _, ins := range b.Instrs {
+			switch ins := ins.(type) {
+			case *ssa.Store:
+				switch a := ins.Addr.(type) {
+				case *ssa.FieldAddr:
+					if named, ok := derefNamed(a.X.Type()); ok {
+						f := named.Underlying().(*types.Struct).Field(a.Field)
+						rn := fieldRegion(named.Origin(), f.Name())
+						if av, ok := outer(a.X); ok {
+							fc.region(st, rn, regionArraySort(sortOfType(f.Type())))
+							precise(rn, fc.val(st, av).T)
+						} else {
+							whole[rn] = true
+						}
+					}
+				case *ssa.IndexAddr:
+					if sl, ok := a.X.Type().Underlying().(*types.Slice); ok {
+						rn, rs := elemsRegion(sortOfType(sl.Elem()))
+						if av, ok := outer(a.X); ok {
+							fc.region(st, rn, rs)
+							precise(rn, app("sl_arr", fc.val(st, av).T))
+						} else {
+							whole[rn] = true
+						}
+					}
+				}
+			case *ssa.MapUpdate:
+				whole["map.dom"], whole["map.get"], whole["map.card"] = true, true, true
+			case *ssa.Call:
+				c := ins.Common()
+				if callee := c.StaticCallee(); callee != nil && fc.e.inRepo(callee) {
+					if fc.e.contracts.Funcs[fc.e.keyOf(callee)] == nil {
+						// pass the mapping on where arguments are parameters of this function
+						var inner []ssa.Value
+						okAll := true
+						for _, x := range c.Args {
+							if a, ok := argOf[x]; ok {
+								inner = append(inner, a)
+							} else {
+								okAll = false
+							}
+						}
+						if okAll {
+							fc.scanWritesArgs(st, originOf(callee), inner, inLoop, whole, precise, depth+1)
+						} else {
+							fc.scanWrites(originOf(callee), whole, depth+1)
+						}
+					} else if sp := fc.lookupSpec(ins); sp != nil && !sp.flags["syncwrites"] {
+						// a callee under contract inside the helper: over-approximate by the regions its modifies clauses name
+						// receiver and arguments that are parameters of the helper bound to loop-invariant caller values
+						msc := &specCtx{fc: fc, st: st, heap: st.heap, now: st.now, vars: map[string]Val{}, params: map[string]Val{}}
+						if i := strings.Index(sp.key, "."); i >= 0 {
+							msc.pkg = sp.key[:i]
+						}
+						cargs := c.Args
+						if sc := c.StaticCallee(); sc != nil && sc.Signature.Recv() != nil && len(cargs) > 0 {
+							if av, ok := outer(cargs[0]); ok {
+								msc.vars["this"] = fc.val(st, av)
+							}
+							cargs = cargs[1:]
+						}
+						for _, m := range sp.modifiesFor() {
+							for i, pn := range m.params {
+								if i < len(cargs) {
+									if av, ok := outer(cargs[i]); ok {
+										msc.params[pn] = fc.val(st, av)
+									}
+								}
+							}
+							for _, loc := range m.E.(*CallE).Args {
+								func() {
+									defer func() { recover() }()
+									region, objExpr := fc.locRegion(st, loc, sp, nil, nil)
+									// precise target when the object is reachable from the bound receiver/arguments
+									if objExpr != nil && region != "*" && region != "map.*" {
+										done := false
+										func() {
+											defer func() { recover() }()
+											obj := msc.eval(objExpr)
+											if fe, isField := loc.(*FieldE); isField {
+												if named, ok := derefNamed(obj.GT); ok {
+													rn := fieldRegion(named.Origin(), fe.Name)
+													if _, known := fc.regionSort[rn]; known {
+														precise(rn, obj.T)
+														done = true
+													}
+												}
+											} else if !strings.HasPrefix(region, "field:") {
+												t := obj.T
+												if obj.S == SSlice {
+													t = app("sl_arr", obj.T)
+												}
+												precise(region, t)
+												done = true
+											}
+										}()
+										if done {
+											return
+										}
+									}
+									switch {
+									case region == "*":
+										for r := range fc.regionSort {
+											whole[r] = true
+										}
+									case region == "map.*":
+										whole["map.dom"], whole["map.get"], whole["map.card"] = true, true, true
+									case strings.HasPrefix(region, "field:"):
+										for r := range fc.regionSort {
+											if strings.HasSuffix(r, "."+strings.TrimPrefix(region, "field:")) {
+												whole[r] = true
+											}
+										}
+									case region != "":
+										whole[region] = true
+									}
+								}()
+							}
+						}
+					}
+				}
+			}
+		}
+	}
+}
+
 func (fc *fnCtx) scanWrites(fn *ssa.Function, whole map[string]bool, depth int) {
 	if depth > 4 {
 		return
@@ -1374,6 +1523,16 @@ func (fc *fnCtx) runtimeCheck(st *State, fr *frame, ins ssa.Instruction, kind st
 				fc.e.warnings[fmt.Sprintf("trusted runtime check %s.%s: %s", fr.key, suffix, reason)] = true
 				st.pc = append(st.pc, not(bad))
 				return
+			}
+		} else if fr.parent != nil && fc.top != nil && fc.top.spec != nil {
+			// the trusted instruction may have moved into a contract-less helper executed in place: the trust of the
+			// function under verification extends to a check of the same kind there
+			for name, reason := range fc.top.spec.Trusts {
+				if normName(name) == normName(suffix) {
+					fc.e.warnings[fmt.Sprintf("trusted runtime check %s.%s (in helper %s): %s", fc.top.key, suffix, fr.key, reason)] = true
+					st.pc = append(st.pc, not(bad))
+					return
+				}
 			}
 		}
 		fc.emit(st, fc.oblName(fr, suffix), "safe."+kind, "no Go runtime panic ("+kind+")", fc.posOf(ins), not(bad), nil)
